@@ -16,7 +16,7 @@ const ruleC08 = "generated paths (no aggregate on the main path); every split po
 	"Non-trivial: P selects >= 2 values and Q has >= 1 step. Distinct = distinct (path, split, document, mode)."
 
 func drawC08(rt *rapid.T) *Case {
-	g := gen.NewG(rt, gen.PathOpts{Funcs: true, NoAgg: true, FuncPct: 25, MinSteps: 2, RootOmit: false, ReuseFuncs: true, LongPaths: true})
+	g := gen.NewG(rt, gen.PathOpts{Funcs: true, NoAgg: true, FuncPct: 25, MinSteps: 2, RootOmit: false, ReuseFuncs: true, LongPaths: true, NoDeepDocs: true})
 	p := g.Path()
 	d := g.Doc(p)
 	c := &Case{Path: gen.Render(p, gen.Canon).Text, AST: p, Doc: d, UseNumber: rapid.Bool().Draw(rt, "usenumber"), Funcs: true}
